@@ -61,6 +61,9 @@ impl VM {
         loop {
             // Check end of bytecode
             if ip >= bytecode_len {
+                if !self.open_upvalues.is_empty() {
+                    self.close_upvalues_from(base);
+                }
                 self.frames.pop();
                 if self.frames.is_empty() {
                     self.sync_loaded_globals();
